@@ -143,7 +143,7 @@ FamPromise ==
               j \in 1..mb.m, pc \in {"none", "zero", "lt", "eq", "gt", "max", "over", "umax"} } :
           mb \in { Member(n, t, m, m, "mid", vs, js, pb, ps, js, 0, 0, "chacha") :
                      n \in (IF Quick THEN {2, 64} ELSE AllN), t \in (IF Quick THEN {1} ELSE {1, 2}), m \in {1, 2, 4}, js \in (IF Quick THEN {1, 4} ELSE {1, 2, 4}),
-                     vs \in {"zero", "one", "max"}, pb \in (IF Quick THEN {"none"} ELSE {"none", "zero"}), ps \in {"none", "zero", "lt", "eq"} } }
+                     vs \in {"zero", "one", "mid", "max"}, pb \in (IF Quick THEN {"none", "eq"} ELSE {"none", "zero", "eq"}), ps \in {"none", "zero", "lt", "eq"} } }
 
 (***************************************************************************************************)
 (* batch (C03): verdict == conjunction, alignment, shape refusals, beyond the chunk limit            *)
@@ -248,7 +248,7 @@ FamCapacity ==
 (***************************************************************************************************)
 FamHedge ==
   LET Base == { [Member(n, t, m, m, "mid", "max", 1, "none", "lt", m, sd, 0, rng) EXCEPT !.bseed = 1] :
-                  n \in {2, 8}, t \in (IF Quick THEN {1, 2} ELSE {1, 2, 3, 6}), m \in {1, 2}, sd \in {0, 1},
+                  n \in {2, 8}, t \in (IF Quick THEN {1, 2} ELSE {1, 2, 3, 6}), m \in {1, 2}, sd \in {0, 1, 5},      \* (seed class 5: the zero scalar)
                   rng \in {"zero", "const", "p2", "ctr", "chacha"} }
       \* the second run: identical, or one input changed (and the verifier-side statement follows it)
       Vary(a) == {a}
@@ -321,6 +321,11 @@ FamForge ==
       n \in (IF Quick THEN {2, 8} ELSE {2, 8, 32}), t \in {1, 2}, m \in {1, 2}, js \in {1, 2},
       vs \in {"zero", "mid", "max", "over", "b63", "umax"}, ps \in {"none", "zero", "lt", "eq", "gt", "max", "over", "umax"},
       sd \in {0, 1}, mode \in {"VerifyOnly", "RecoverAndVerify"} }
+  \* the same proofs as members of a batch, at either end (with a filler, so the batch can be expanded to full chunks)
+  \cup { ScenF(IF pos = 1 THEN <<fm>> \o rest ELSE rest \o <<fm>>, "VerifyOnly", NoSkew, FALSE, <<Kind(8, 1, "v1")>>) :
+          fm \in { [Member(8, 1, 1, 1, "mid", vs, 1, "none", ps, 1, 0, 0, "chacha") EXCEPT !.wit = [kind |-> "forge", j |-> 0]] :
+                     vs \in {"mid", "over"}, ps \in {"none", "lt", "over", "umax"} },
+          rest \in { <<Kind(8, 1, "v1")>>, <<Kind(8, 1, "v1"), Kind(8, 1, "v1s")>> }, pos \in {1, 2} }
 
 Scenarios ==
   CASE Family = "complete" -> FamComplete
